@@ -384,8 +384,8 @@ def axi_bytes_bench(name, rmw=False, base=0, wdepth=2, rdepth=2, dw=32, aw=7, id
 
 
 BYTES_CONFIGS = {
-    "bytes_plain_base32": (dict(base=32), 18, 24, "qt"),
-    "bytes_rmw_base32": (dict(rmw=True, base=32), 20, 26, "qt"),
+    "bytes_plain_base32": (dict(base=32), 16, 24, "qt"),
+    "bytes_rmw_base32": (dict(rmw=True, base=32), 16, 26, "qt"),
     "bytes_plain_dw16_d4": (dict(dw=16, wdepth=4, rdepth=4), 0, 24, "t"),
     "bytes_rmw_dw16": (dict(rmw=True, dw=16), 0, 26, "t"),
 }
@@ -422,7 +422,7 @@ def run(ctx):
         if ctx.only and not ctx.only.search(n):
             continue
         if ctx.tier == "quick" and "q" in tiers:
-            ctx.add(n, kq, timeout=900, min_K=kq - 3, first_chunk=10, chunk=1)
+            ctx.add(n, kq, timeout=900, min_K=kq - 1, first_chunk=10, chunk=1, deep_timeout=400)
         elif ctx.tier == "thorough":
-            ctx.add(n, kt, timeout=1200, min_K=(kq or 18) - 3, first_chunk=10, chunk=1)
+            ctx.add(n, kt, timeout=1200, min_K=(kq or 16) - 1, first_chunk=10, chunk=1)
     ctx.run()
